@@ -153,6 +153,18 @@ LawRescale(inst) ==
      /\ (s.invertible /\ c # RZero /\ ~IsNaN(s.det) /\ ~IsNaN(s2.det)) =>
            (VEq(s2.post_mean, s.post_mean) /\ MEq(s2.post_cov, MatScale(RMul(c, c), s.post_cov)))
 
+\* the preconditioner is a gauge: (tl, b, LQ, to) -> (a tl, a b, a LQ, to / a) leaves the effective conditional and hence
+\* every result unchanged (used by the harness with a = 2^-40 and 2^40 to reach scalings the rationals cannot hold)
+LawGauge(inst) ==
+  LET a == RInt(2)
+      b1 == inst.blocks[1]
+      s  == EvalBlock(b1, ROne)
+      g  == EvalBlock([b1 EXCEPT !.tl = VScale(a, b1.tl), !.b = VScale(a, b1.b), !.LQ = MatScale(a, b1.LQ),
+                                 !.to = VScale(RInv(a), b1.to)], ROne)
+  IN /\ MEq(g.Aeff, s.Aeff) /\ VEq(g.beff, s.beff) /\ MEq(g.Qeff, s.Qeff)
+     /\ VEq(g.marg_mean, s.marg_mean) /\ MEq(g.marg_cov, s.marg_cov) /\ MEq(g.cross, s.cross)
+     /\ (s.invertible /\ ~IsNaN(g.det)) => (VEq(g.post_mean, s.post_mean) /\ MEq(g.post_cov, s.post_cov))
+
 CheckAndPrint ==
   LET inst == Instances[i]
       eb == Vec(D(inst), LAMBDA a : EvalBlock(inst.blocks[a], inst.factor))
@@ -160,6 +172,7 @@ CheckAndPrint ==
   IN  /\ Laws(inst, E)
       /\ LawEmbedding(inst, E)
       /\ LawRescale(inst)
+      /\ LawGauge(inst)
       /\ PrintT("@@EXP " \o ToJson([i |-> i,
              nan |-> ((\E fld \in MatFields : MatNaN(E[fld])) \/ (\E fld \in VecFields : VecNaN(E[fld])) \/ IsNaN(E.maha) \/ IsNaN(E.det)),
              e |-> [dense |-> E,
